@@ -18,6 +18,7 @@
 
 #include "LuaHeatflowCommands.h"
 #include "LuaCommonCommands.h"
+#include "LuaElectrostaticsCommands.h"
 
 #include "CHPointVals.h"
 #include "hpproc.h"
@@ -171,6 +172,9 @@ void femmcli::LuaHeatflowCommands::registerCommands(LuaInstance &li)
     li.addFunction("hi_selectrectangle", LuaCommonCommands::luaSelectWithinRectangle);
     li.addFunction("hi_select_segment", LuaCommonCommands::luaSelectSegment);
     li.addFunction("hi_selectsegment", LuaCommonCommands::luaSelectSegment);
+    // the heat flow command takes the same arguments as the electrostatics one: (maxsegdeg, "propname", hide, group, "inconductor")
+    li.addFunction("hi_set_arcsegment_prop", LuaElectrostaticsCommands::luaSetArcsegmentProperty);
+    li.addFunction("hi_setarcsegmentprop", LuaElectrostaticsCommands::luaSetArcsegmentProperty);
     li.addFunction("hi_set_block_prop", LuaCommonCommands::luaSetBlocklabelProperty);
     li.addFunction("hi_setblockprop", LuaCommonCommands::luaSetBlocklabelProperty);
     li.addFunction("hi_set_edit_mode", LuaCommonCommands::luaSetEditMode);
